@@ -26,8 +26,11 @@ structure RState where
 def hdrNat (hdr : List String) (key : String) (dflt : Nat) : Nat :=
   (hdr.filterMap (fun h => if h.startsWith (key ++ "=") then (h.drop (key.length + 1)).toNat? else none)).head?.getD dflt
 
+/-- `base`: the harness may start the ring at a later ticket (indices and slot versions preset), so that
+the 16-bit slot version wraps during the run -/
 def initR (hdr : List String) : RState :=
-  { c := { cap := hdrNat hdr "cap" 1 }, s := State.init, gc := hdrNat hdr "gc" 1 }
+  let base := hdrNat hdr "base" 0
+  { c := { cap := hdrNat hdr "cap" 1 }, s := { State.init with pushIdx := base, popIdx := base }, gc := hdrNat hdr "gc" 1 }
 
 def lookup (l : List (Nat × Nat)) (t : Nat) : Option Nat := (l.find? (·.1 = t)).map (·.2)
 def erase (l : List (Nat × Nat)) (t : Nat) : List (Nat × Nat) := l.filter (·.1 ≠ t)
